@@ -47,6 +47,7 @@ func FromView(v chain.View) *State {
 	s := &State{Bal: map[string]*big.Int{}, Supply: v.Supply.BigInt(), Vals: map[string]*Val{}, Awards: map[string]*big.Int{},
 		Burns: map[string]*big.Int{}, Burned: new(big.Int), Minted: new(big.Int), MustReturn: true}
 	s.P = ParamsFromView(v)
+	s.Other = v.Other
 	for a, b := range v.Balances {
 		s.Bal[a] = b.BigInt()
 	}
